@@ -222,6 +222,40 @@ func TestC04_P_ReadSeekModel(t *testing.T) {
 				classes["copy"]++
 				armed[i] = "copy"
 			},
+			"copyIntoFailingWriter": func(t *rapid.T) {
+				// io.Copy into a destination that accepts a drawn number of bytes and then fails (a closed pipe, a full disk).
+				// How far the SOURCE got is its own business (a copy may have read ahead), but the next Read must hand out
+				// the bytes that lie just before the position the reader then reports.
+				i, r := pick(t)
+				if r.pos >= n {
+					t.Skip("at end")
+				}
+				accept := rapid.IntRange(0, int(n-r.pos)).Draw(t, "accept")
+				dst := &failingWriter{room: accept}
+				var cerr error
+				must(t, "io.Copy into a failing writer", func() { _, cerr = io.Copy(dst, r.rs) })
+				if !bytes.Equal(dst.buf.Bytes(), fc.Data[r.pos:r.pos+int64(dst.buf.Len())]) {
+					t.Fatalf("C04 [%s] reader %d: io.Copy from %d wrote wrong bytes before the writer failed", fc.Desc, i, r.pos)
+				}
+				if cerr == nil && r.pos+int64(dst.buf.Len()) != n {
+					t.Fatalf("C04 [%s] reader %d: io.Copy from %d ended without error after %d bytes (file has %d)", fc.Desc, i, r.pos, dst.buf.Len(), n)
+				}
+				buf := make([]byte, rapid.IntRange(1, 9).Draw(t, "k"))
+				var got int
+				var rerr error
+				must(t, "Read after the failed copy", func() { got, rerr = r.rs.Read(buf) })
+				var p int64
+				var serr error
+				must(t, "Seek(0,Current)", func() { p, serr = r.rs.Seek(0, io.SeekCurrent) })
+				if serr != nil || p < r.pos+int64(dst.buf.Len()) || p > n || p-int64(got) < 0 {
+					t.Fatalf("C04 [%s] reader %d: after a copy from %d that wrote %d bytes and a Read of %d bytes the reader reports position (%d, %v)", fc.Desc, i, r.pos, dst.buf.Len(), got, p, serr)
+				}
+				if !bytes.Equal(buf[:got], fc.Data[p-int64(got):p]) || (rerr != nil && rerr != io.EOF && !(isInjected(rerr) && fc.St.FailReadAt != 0)) {
+					t.Fatalf("C04 [%s] reader %d: after an io.Copy cut short by its writer, Read returned %x (err %v) and the reader then reports position %d: the bytes just before that position are %x", fc.Desc, i, buf[:got], rerr, p, fc.Data[p-int64(got):p])
+				}
+				r.pos = p
+				classes["copy-into-failing-writer"]++
+			},
 			"read": func(t *rapid.T) {
 				i, r := pick(t)
 				k := rapid.SampledFrom([]int{0, 1, 2, 3, fc.CS, fc.CS + 1, 17, len(fc.Data), len(fc.Data) + 7}).Draw(t, "k")
@@ -390,4 +424,22 @@ func TestC04_P_LengthAfterTransientFault(t *testing.T) {
 		ev.Case(fc.Writer+" "+how, noFS, "open:"+how, fmt.Sprintf("noFileSize:%v", noFS))
 		ev.Sample(map[string]any{"file": fc.Desc, "open": how})
 	})
+}
+
+
+// failingWriter accepts `room` bytes in total and then fails (a short write with an error, as a full pipe gives).
+type failingWriter struct {
+	buf  bytes.Buffer
+	room int
+}
+
+func (w *failingWriter) Write(p []byte) (int, error) {
+	if len(p) <= w.room {
+		w.room -= len(p)
+		return w.buf.Write(p)
+	}
+	k := w.room
+	w.room = 0
+	w.buf.Write(p[:k])
+	return k, fmt.Errorf("writer is full")
 }
